@@ -188,3 +188,280 @@ def litmus(tier, seed, avoid=()):
         progs.append(p)
         k += 1
     return [normalize(p) for p in progs]
+
+
+# ============================================================================================
+# Synchronisation-primitive programs: a well-formed random generator shared by several families
+# ============================================================================================
+class TB:
+    """Builder of one thread's code; tracks the register count for `br`."""
+    def __init__(self, t):
+        self.t = t
+        self.code = []
+        self.nregs = 0
+
+    def add(self, ins):
+        self.code.append(ins)
+        if ins["op"] in RET_OPS:
+            self.nregs += 1
+        return self.nregs
+
+    def guarded(self, try_ins, body, unlock_ins):
+        """try_ins; if it returned 1 { body; unlock }"""
+        r = self.add(try_ins)
+        inner = body + [unlock_ins]
+        self.code.append(br(r, 1, len(inner)))
+        for i in inner:
+            self.add(i)
+
+
+class SyncGen:
+    """Random well-formed programs over the blocking primitives.
+    feats: subset of {"atom","mutex","try","rw","cv","chan","park","notify","arc","cell","yield"}"""
+    def __init__(self, rng, feats, nspawn, max_ops, sc_atoms=True, leak_free=True, safe=True):
+        """safe=True: do not draw the triggers of the open findings (quarantine, DESIGN.md §8):
+        F3/F4 a location written by two threads one of them with a plain store; F5/F8/F10 unpark of a
+        thread that can block elsewhere than in park; F11 a send after the receiver was dropped."""
+        self.rng, self.feats, self.nspawn, self.max_ops = rng, set(feats), nspawn, max_ops
+        self.sc_atoms = sc_atoms
+        self.leak_free = leak_free
+        self.safe = safe
+        self.nextv = {}
+        self.total = 0
+        # per atomic: "owner:<t>" (only thread t writes) or "rmw" (everybody writes, RMWs only)
+        self.policy = {x: rng.choice(["rmw"] + [f"owner:{t}" for t in range(1, nspawn + 2)]) for x in ("x", "y")}
+        self.cur_t = 1
+
+    def val(self, o):
+        self.nextv[o] = self.nextv.get(o, 0) + 1
+        return self.nextv[o]
+
+    def atom_op(self):
+        rng = self.rng
+        x = rng.choice(["x", "y"])
+        o = "sc" if self.sc_atoms else None
+        k = rng.choice(["ld", "ld", "st", "st", "swap", "cas"])
+        if self.safe:
+            pol = self.policy[x]
+            if pol == "rmw" and k == "st":
+                k = "swap"
+            elif pol.startswith("owner:") and int(pol[6:]) != self.cur_t:
+                k = "ld"
+        if k == "ld":
+            return ld(x, o or rng.choice(LD_ORDS))
+        if k == "st":
+            return st(x, self.val(x), o or rng.choice(ST_ORDS))
+        if k == "swap":
+            return swap(x, self.val(x), o or rng.choice(RMW_ORDS))
+        exp = rng.choice([0, max(0, self.nextv.get(x, 0))])
+        so = o or rng.choice(RMW_ORDS)
+        return cas(x, exp, self.val(x), so, "sc" if o else "rlx")
+
+    def inner_ops(self, tb, m, k):
+        """up to k ops executed while holding mutex m"""
+        rng, out = self.rng, []
+        for _ in range(k):
+            c = []
+            if "cell" in self.feats: c.append("cell")
+            if "atom" in self.feats: c.append("atom")
+            if "cv" in self.feats: c += ["cvwait", "cvnotify"]
+            if "chan" in self.feats: c.append("send")
+            if not c:
+                break
+            w = rng.choice(c)
+            if w == "cell": out.append(wr("c_" + m))
+            elif w == "atom": out.append(self.atom_op())
+            elif w == "cvwait": out.append(I("cvwait", "cv", o2=m))
+            elif w == "cvnotify": out.append(I(rng.choice(["notify1", "notifyall"]), "cv"))
+            elif w == "send": out.append(I("send", "ch", v=self.val("ch")))
+        return out
+
+    def gen(self):
+        rng = self.rng
+        n = self.nspawn
+        tbs = {t: TB(t) for t in range(1, n + 2)}
+        main = tbs[1]
+        # roles
+        receiver = rng.randint(1, n + 1)
+        waiter = rng.randint(1, n + 1)      # the single thread allowed to nwait
+        # per-thread op budgets: every spawned thread gets at least one block
+        share = max(1, self.max_ops // (n + 1))
+        tbudget = {t: share + (1 if rng.random() < 0.5 else 0) for t in range(2, n + 2)}
+        tbudget[1] = rng.choice([0, 0, 1, share])
+        per = {t: 3 for t in range(1, n + 2)}
+        # arcs: one handle per thread
+        arc_threads = []
+        if "arc" in self.feats:
+            arc_threads = [t for t in range(1, n + 2) if rng.random() < 0.7]
+            if len(arc_threads) < 2:
+                arc_threads = [1, 2]
+        dropped = set()
+        order = list(range(2, n + 2)) + [1]
+        if self.safe:
+            receiver = 1
+        for t in order:
+            tb = tbs[t]
+            self.cur_t = t
+            blocks = per[t]
+            for _ in range(blocks):
+                if len(tb.code) >= tbudget[t]:
+                    break
+                c = []
+                if "atom" in self.feats: c += ["atom", "atom"]
+                if "mutex" in self.feats: c += ["mutex", "mutex"]
+                if "try" in self.feats: c.append("trylock")
+                if "rw" in self.feats: c += ["read", "write", "tryrw"]
+                if "cv" in self.feats and "mutex" in self.feats: c += ["cvnotify"]
+                if "chan" in self.feats:
+                    c.append("send")
+                    if t == receiver: c += ["recv", "tryrecv", "tryrecv"]
+                if "park" in self.feats:
+                    c.append("park")
+                    c.append("unpark")
+                if "notify" in self.feats:
+                    c.append("notify")
+                    if t == waiter: c.append("nwait")
+                if "arc" in self.feats and t in arc_threads and t not in dropped: c += ["acount", "aclone", "agetmut"]
+                if "cell" in self.feats and "mutex" not in self.feats and "rw" not in self.feats: c.append("cell")
+                if "yield" in self.feats: c.append("yield")
+                w = rng.choice(c)
+                before = len(tb.code)
+                if w == "atom":
+                    tb.add(self.atom_op())
+                elif w == "mutex":
+                    m = rng.choice(["m", "m", "n"])
+                    tb.add(I("lock", m))
+                    for i in self.inner_ops(tb, m, rng.choice([0, 1, 1, 2])):
+                        tb.add(i)
+                    tb.add(I("unlock", m))
+                elif w == "trylock":
+                    m = rng.choice(["m", "n"])
+                    tb.guarded(I("trylock", m), self.inner_ops(tb, m, rng.choice([0, 1])), I("unlock", m))
+                elif w == "read":
+                    tb.add(I("read", "l"))
+                    if "cell" in self.feats: tb.add(rd("c_l"))
+                    tb.add(I("unlockr", "l"))
+                elif w == "write":
+                    tb.add(I("write", "l"))
+                    if "cell" in self.feats: tb.add(wr("c_l"))
+                    tb.add(I("unlockw", "l"))
+                elif w == "tryrw":
+                    if rng.random() < 0.5:
+                        tb.guarded(I("tryread", "l"), [rd("c_l")] if "cell" in self.feats else [], I("unlockr", "l"))
+                    else:
+                        tb.guarded(I("trywrite", "l"), [wr("c_l")] if "cell" in self.feats else [], I("unlockw", "l"))
+                elif w == "cvnotify":
+                    tb.add(I(rng.choice(["notify1", "notifyall"]), "cv"))
+                elif w == "send":
+                    tb.add(I("send", "ch", v=self.val("ch")))
+                elif w == "recv":
+                    tb.add(I("recv", "ch"))
+                elif w == "tryrecv":
+                    tb.add(I("tryrecv", "ch"))
+                elif w == "park":
+                    tb.add(I("park"))
+                elif w == "unpark":
+                    targets = [1] + [j for j in range(2, t)] if t != 1 else list(range(2, n + 2))
+                    if self.safe:
+                        # only threads generated so far (lower index) that block nowhere but in park
+                        targets = [j for j in targets if j != 1 and j in tbs and j < t or (t == 1 and j != 1)]
+                        targets = [j for j in targets if not any(i["op"] in BLOCKING_OPS - {"park"} for i in tbs[j].code)]
+                    if targets:
+                        tb.add(unpark(rng.choice(targets)))
+                elif w == "notify":
+                    tb.add(I("notify", "nt"))
+                elif w == "nwait":
+                    tb.add(I("nwait", "nt"))
+                elif w == "acount":
+                    tb.add(I("acount", f"a{t}"))
+                elif w == "agetmut":
+                    tb.add(I("agetmut", f"a{t}"))
+                elif w == "aclone":
+                    tb.add(I("aclone", f"a{t}", o2=f"b{t}"))
+                    if rng.random() < 0.5: tb.add(I("acount", f"b{t}"))
+                    tb.add(I("adrop", f"b{t}"))
+                elif w == "cell":
+                    tb.add(rng.choice([rd("c"), wr("c")]))
+                elif w == "yield":
+                    tb.add(I("yield"))
+                self.total += len(tb.code) - before
+            if "arc" in self.feats and t in arc_threads and t != 1:
+                tb.add(I("adrop", f"a{t}"))
+                dropped.add(t)
+        # main: spawn all first, then its own ops, then joins, then release/final reads
+        own = main.code
+        code = [spawn(t) for t in range(2, n + 2)] + own + [join(t) for t in range(2, n + 2)]
+        if "arc" in self.feats and 1 in arc_threads:
+            if rng.random() < 0.3:
+                code.append(I("aunwrap", "a1"))   # after all joins: succeeds iff every other handle is gone
+            else:
+                code.append(I("acount", "a1"))
+                code.append(I("adrop", "a1"))
+        if "chan" in self.feats and self.leak_free:
+            if receiver == 1:
+                code.append(I("droprx", "ch"))
+            else:
+                pass
+        if "atom" in self.feats:
+            code += [ld("x", "sc" if self.sc_atoms else "rlx"), ld("y", "sc" if self.sc_atoms else "rlx")]
+        threads = [code] + [tbs[t].code for t in range(2, n + 2)]
+        if "chan" in self.feats and self.leak_free and receiver != 1:
+            threads[receiver - 1].append(I("droprx", "ch"))
+        p = {"threads": threads, "tags": ["sync"]}
+        if "arc" in self.feats:
+            p["arcs"] = {"A": {"h0": [f"a{t}" for t in arc_threads], "cell": ""}}
+        return p
+
+
+def fix_main_regs(p):
+    return p
+
+
+def gen_sync(rng, feats, nspawn, max_ops, tries=50, **kw):
+    for _ in range(tries):
+        g = SyncGen(rng, feats, nspawn, max_ops, **kw)
+        p = g.gen()
+        if sum(len(t) for t in p["threads"][1:]) >= 2:
+            return p
+    return p
+
+
+def syncmix(tier, seed, avoid=()):
+    """C01: every mix of object kinds (SeqCst atomics)"""
+    rng = random.Random(seed * 104729 + 3)
+    progs = []
+    mixes = [["atom", "mutex"], ["atom", "mutex", "try"], ["atom", "rw", "try"], ["chan", "atom"], ["chan", "park"],
+             ["park", "atom"], ["notify", "atom"], ["mutex", "cv"], ["mutex", "cv", "atom"], ["arc", "atom"],
+             ["arc", "mutex"], ["atom", "mutex", "chan", "park", "notify"], ["atom"], ["chan", "notify", "mutex"],
+             ["rw", "atom", "mutex"], ["yield", "atom", "mutex"]]
+    per = 6 if tier == "quick" else 60
+    for feats in mixes:
+        k = 0
+        while k < per:
+            nspawn = rng.choice([2, 2, 2, 3]) if tier == "thorough" else rng.choice([2, 2, 2, 3])
+            p = gen_sync(rng, feats, nspawn, 6 if nspawn == 3 else 7)
+            if any(q(p) for q in avoid):
+                continue
+            p["name"] = "+".join(feats) + f"#{k}"
+            progs.append(p)
+            k += 1
+    return [normalize(p) for p in progs]
+
+
+# ------------------------------------------------------------------ waivers for open findings
+def ops_of(p):
+    return {i["op"] for th in p["threads"] for i in th}
+
+
+def waived(p):
+    """Parts of the comparison that are NOT applied to program p because an open finding
+    (known_findings.json / DESIGN.md §8) would fire.  Returns {want-name: finding id}."""
+    ops = ops_of(p)
+    w = {}
+    if ops & {"trylock", "tryread", "trywrite"}:
+        w["complete"] = "F13"       # a failing try_* is only seen if the holder is preempted inside its critical section
+    if "tryrecv" in ops:
+        w["complete"] = "F9"        # try_recv on an empty channel is no branch point
+    if ops & {"acount", "agetmut", "aunwrap"}:
+        w["complete"] = "F14"       # Arc inspections: single last-access slot per class
+    return w
